@@ -63,7 +63,7 @@ def classes(tier):
 
 
 def n_runs(tier):
-    return 2_500 if tier == "quick" else 100_000
+    return 2_500 if tier == "quick" else 40_000
 
 
 # ---------------------------------------------------------------------------
